@@ -51,8 +51,10 @@ CLAIMED = {
             "stream-order hand-over, termination under fairness), with the thresholds and task priorities read "
             "from the binary's own Init events.  The same specification validates, event by event, traces "
             "recorded from perturbed runs of the real binary in the starved-slot / tiny-I/O-block regime the "
-            "model explores; hangs, crashes and wrong results of those runs are violations.",
-            NOTE_MC, "DESIGN.md 2.1-2.2, 3 (C11)"),
+            "model explores; hangs, crashes and wrong results of those runs are violations.  Queues.tla: the ring-buffer deque "
+            "and the binary-heap priority queue the pipeline queues are made of are checked against sequence / bag semantics for "
+            "every operation sequence up to a bound and replayed through the real macros and functions.",
+            NOTE_MC, "DESIGN.md 2.1-2.2, 3 (C11), 11.2"),
     "C02": ("other", "specification-calibrated strict inspector on every stream the binary writes (BZ2.tla via tools/bzfmt.py) + libbz2",
             "Every compressed stream of the sessions is parsed by an independent strict inspector that is calibrated "
             "against spec/BZ2.tla in the same run (TLC computes bytes, CRCs and plaintext of sample files itself); the "
